@@ -63,7 +63,7 @@ P = {
  'C15': dict(families=[('par', 150, 2000, 120), ('parset', 80, 1000, 120)], aspects='RSD', profiles=['debug', 'release'],
              theorems=['C15_pieces_partition', 'C15_schedule_independent', 'C15_par_iter_each_once', 'C15_par_is_sequential_up_to_order', 'C15_par_extend_same_collection',
                        'C15_extend_is_reference', 'C15_par_set_operations', 'C15_par_set_predicates']),
- 'C16': dict(families=[('ser', 120, 1500, 120), ('serset', 120, 1500, 120)], aspects='RSD', profiles=['debug', 'release'],
+ 'C16': dict(families=[('ser', 120, 500, 120), ('serset', 120, 800, 120)], aspects='RSD', profiles=['debug', 'release'],
              theorems=['C16_serialize_exact_len_each_once', 'C16_deserialize_collects', 'C16_roundtrip', 'C16_roundtrip_any_phase', 'C16_in_place_replaces_entirely']),
  'C05': dict(families=[('mixed', 120, 2000, 120), ('entry', 80, 1500, 120), ('iter', 80, 1500, 120), ('zst', 40, 400, 150)], aspects='RS', profiles=['debug', 'release'],
              asan=[('mixed', 100, 1500, 120), ('entry', 100, 1500, 120), ('iter', 60, 800, 120), ('zst', 30, 300, 150)],
